@@ -19,15 +19,20 @@ Definition extra_eqb (a b : extra_mode) : bool :=
   match a, b with Forbid, Forbid | Allow, Allow | Ignore, Ignore => true | _, _ => false end.
 
 
-(* ---- exactly the 18 expected type strings, pairwise distinct; class names pairwise distinct, none is GenericResource ---- *)
+(* ---- the 18 type strings this development was written against are all still modelled (a class that disappears would silently
+        turn its resources into generic ones); the live list may be LONGER (a newly modelled type is an ordinary upstream change:
+        the schema table, the dispatch theorems and the document paths below are all stated over the live list); pairwise
+        distinct; class names pairwise distinct, none is GenericResource ---- *)
 Definition EXPECTED_TYPES : list str := strs [
   "AWS::EC2::VPCEndpoint"; "AWS::Elasticsearch::Domain"; "AWS::IAM::Group"; "AWS::IAM::ManagedPolicy"; "AWS::IAM::Policy";
   "AWS::IAM::Role"; "AWS::IAM::User"; "AWS::KMS::Key"; "AWS::OpenSearchService::Domain"; "AWS::RDS::DBSecurityGroup";
   "AWS::RDS::DBSecurityGroupIngress"; "AWS::S3::Bucket"; "AWS::S3::BucketPolicy"; "AWS::EC2::SecurityGroup";
   "AWS::EC2::SecurityGroupEgress"; "AWS::EC2::SecurityGroupIngress"; "AWS::SNS::TopicPolicy"; "AWS::SQS::QueuePolicy"]%string.
 
-Theorem Schema_types : strs_eqb MODELLED_TYPES EXPECTED_TYPES = true /\ List.length MODELLED_TYPES = 18%nat.
-Proof. split; vm_compute; reflexivity. Qed.
+Theorem Schema_types : forallb (fun t => mem_str t MODELLED_TYPES) EXPECTED_TYPES = true /\ (18 <= List.length MODELLED_TYPES)%nat.
+Proof. split; [vm_compute; reflexivity | apply PeanoNat.Nat.leb_le; vm_compute; reflexivity]. Qed.
+Corollary Schema_types_in : forall t, In t EXPECTED_TYPES -> In t MODELLED_TYPES.
+Proof. intros t H. destruct Schema_types as [F _]. rewrite forallb_forall in F. apply mem_str_In. exact (F t H). Qed.
 Theorem Schema_types_distinct : NoDup MODELLED_TYPES /\ NoDup MODELLED_CLASSES /\ ~ In GENERIC MODELLED_CLASSES.
 Proof.
   split; [apply nodupb_NoDup; vm_compute; reflexivity|]. split; [apply nodupb_NoDup; vm_compute; reflexivity|].
